@@ -352,9 +352,14 @@ CLAIMED["C08"] = dict(
          "loud_encodeOperands, encodeOperands_shape, loud_compileInsn); the lazy evaluator reports every undefined name and never gives a value to 'a = a' or "
          "'a = a + k' at any fuel (undefined_reports, self_reference_no_value, self_increment_no_value); in the report machinery an "
          "error or critical report always turns the run into a failure and warnings never do (error_report_fails, "
-         "critical_report_fails, warning_report_passes). Tie and search: grammar G - every mnemonic and directive, every operand "
+         "critical_report_fails, warning_report_passes); the stack of values being computed (deferred.Awaiting) makes every wait end on "
+         "every graph of thunks, cyclic or not, within a fuel fixed by the sizes alone, reports a cycle only when some thunk depends on "
+         "itself, never on a graph that has a rank, and changes no other answer (Await.wait_ends, cycle_sound, acyclic_no_cycle, "
+         "agrees_with_plain; Model/Await.lean is tied to the real Awaiting/Deferred/Promise by scripts of waits and settlements on random "
+         "cyclic graphs, verb await). Tie and search: grammar G - every mnemonic and directive, every operand "
          "form and operator, three bracket kinds, all number/character/string spellings, nesting <= 8, planted faults, token- and "
-         "character-level mutation - in-process under a watchdog and through the CLI with both report handlers; outcome must be ok or "
+         "character-level mutation, plus every infix operator x 9 kinds of left and right operand and chains of 2-58 definitions through 0-7 "
+         "nested operators - in-process under a watchdog and through the CLI with both report handlers; outcome must be ok or "
          "failed-with-an-error-report; the first witness of each new crash site is shrunk.",
     design_ref="DESIGN.md §5 C08",
     technique="Lean 4 theorems (totality by construction, a compositional 'Loud' invariant over the error-log monad, induction on fuel) + grammar-directed exploration with planted faults and mutation under a watchdog (search for failing inputs; not a proof)",
